@@ -26,11 +26,21 @@
    marker_* theorems and replayed on the implementation by the malformed
    stream of the correspondence.
 
-   NOT modelled: the to_dict/from_dict of the registered classes
+   NOT modelled: the CONTENT of to_dict/from_dict of the registered classes
    (serialize_deserialize_C of DESIGN.md): covered end to end by the searcher
-   only; the three meta entries save() adds; class de-serialisation. *)
+   only; the three meta entries save() adds; class de-serialisation.
+
+   Fault paths (last section): Model/SimToFile.v models the serialisation ENTRY
+   POINTS of a Simulation (to_dict / copy / to_file / emg3d.save with the
+   simulation as a member), the transient attribute through which to_file hands
+   its `what` to to_dict, and every stage at which io.save can RAISE.  Theorems:
+   after any history of successful and failed calls the attribute is absent and
+   every call stores what its OWN `what` says (default 'computed').  The code
+   before commit e6d5394 (no try/finally in to_file) is kept as the variant
+   [fixed = false] with *_refuted theorems. *)
 From Coq Require Import ZArith List Bool Ascii String.
-From V Require Import Model.Codec Proofs.Codec Gen.C17Keys.
+From V Require Import Model.Codec Proofs.Codec Proofs.CodecTables Gen.C17Keys.
+From V Require Import Model.SimToFile Proofs.SimToFile.
 Import ListNotations.
 Local Open Scope string_scope.
 
@@ -116,16 +126,11 @@ Print Assumptions key_guard_decidable.
    without '>' and '/', without "__array"/"__complex", and that end in an EVEN
    number of underscores.  (Keys ending in an odd number of '_' holding an
    array cannot be loaded from JSON: see json_underscore_key_rejected.) *)
-Definition key_alpha : list ascii := ["_"; "a"; "-"; ">"]%char.
-Definition key_tokens : list string := ["_"; "a"; "__array"; "__complex"; "-float64"; "/"; "."].
-Fixpoint twords (n : nat) : list string :=
-  match n with
-  | O => [EmptyString]
-  | S n' => EmptyString :: flat_map (fun w => map (fun t => t ++ w) key_tokens) (twords n')
-  end.
+(* key_alpha = ['_';'a';'-';'>'], key_tokens and twords (the token words) are defined next to the
+   compiled decision in Proofs/CodecTables.v (evaluated once per build, not on every run). *)
 Theorem key_guard_syntactic_bounded :
   forallb (fun k => Bool.eqb (key_all_okb k) (simple_keyb k)) (words key_alpha 4 ++ twords 3) = true.
-Proof. vm_compute. reflexivity. Qed.
+Proof. exact key_guard_table. Qed.
 Print Assumptions key_guard_syntactic_bounded.
 
 (* Gen/C17Keys.v is rewritten on every run from the to_dict methods of the
@@ -288,3 +293,121 @@ Example convert_nonvacuous :
           [(H5, NPZ); (H5, JSON); (NPZ, H5); (NPZ, JSON); (JSON, H5); (JSON, NPZ)] = true.
 Proof. split; vm_compute; reflexivity. Qed.
 Print Assumptions convert_nonvacuous.
+
+(* ------------------------------------------------- fault paths (Simulation) *)
+(* Model/SimToFile.v.  [run fixed ext_first None ops]: (outcome, transient attribute afterwards)
+   of every operation of the history [ops] on a fresh simulation; operations: to_dict/copy with
+   any `what` (valid or not), emg3d.save with any members (the simulation any number of times,
+   members whose serialisation raises) failing at any stage (call binding, serialisation,
+   extension, writer), Simulation.to_file with any `what`, members, name and failing stage.
+   [fixed = true]: Simulation.to_file of /repo (try/finally, commit e6d5394);
+   [ext_first]: io.save checks the extension after (false: /repo) or before serialising --
+   the theorems hold for BOTH, i.e. they do not depend on where io.save raises. *)
+
+(* after ANY history of successful and failed operations the transient attribute is absent *)
+Theorem flag_absent_after_any_history ext_first ops :
+  exec true ext_first None ops = None /\
+  Forall (fun r => snd r = None) (run true ext_first None ops).
+Proof. exact (conj (exec_fixed_clean ext_first ops) (run_fixed_flags ext_first ops)). Qed.
+Print Assumptions flag_absent_after_any_history.
+
+(* ... and every operation of the history does what the same call does on a fresh simulation:
+   its outcome depends on its own arguments only *)
+Theorem outcomes_history_independent ext_first ops :
+  map fst (run true ext_first None ops) = map (spec ext_first) ops.
+Proof. exact (run_fixed_outcomes ext_first ops). Qed.
+Print Assumptions outcomes_history_independent.
+
+(* what that is, per kind of call, after any history [pre]:
+   to_dict(w) / copy(w) use w (an unknown `what` raises) ... *)
+Theorem to_dict_uses_own_what ext_first pre w :
+  step true ext_first (exec true ext_first None pre) (OToDict w)
+  = (None, match w with W x => Done [x] | WBad => Raised end).
+Proof. exact (after_history_to_dict ext_first pre w). Qed.
+Print Assumptions to_dict_uses_own_what.
+
+(* ... emg3d.save stores every occurrence of the simulation with the default 'computed'
+   (or raises, at the stage given by the call itself) ... *)
+Theorem save_uses_default_what ext_first pre c :
+  step true ext_first (exec true ext_first None pre) (OSave c) = (None, save_spec ext_first c) /\
+  (kw_ok c = true -> ext_ok c = true -> write_ok c = true -> existsb is_bad (members c) = false ->
+   save_spec ext_first c = Done (map (fun _ => Computed) (filter is_self (members c)))).
+Proof.
+  split; [exact (after_history_save ext_first pre c)|].
+  intros Hk He Hw Hb. unfold save_spec, clean_levels. rewrite Hk, He, Hw, Hb.
+  destruct ext_first; reflexivity.
+Qed.
+Print Assumptions save_uses_default_what.
+
+(* ... and to_file(what=w) stores the simulation with w *)
+Theorem to_file_uses_own_what ext_first pre t :
+  existsb is_self (tf_user t) = false -> existsb is_bad (tf_user t) = false ->
+  tf_name t = NFresh -> tf_ext_ok t = true -> tf_write_ok t = true ->
+  step true ext_first (exec true ext_first None pre) (OToFile t)
+  = (None, match tf_what t with W x => Done [x] | WBad => Raised end).
+Proof. exact (after_history_to_file ext_first pre t). Qed.
+Print Assumptions to_file_uses_own_what.
+
+(* the try/finally itself: whatever io.save is and does (any implementation [sv], any state
+   before, any outcome), to_file leaves no transient attribute behind *)
+Theorem failed_to_file_leaves_nothing sv s t : fst (to_file_gen sv true s t) = None.
+Proof. exact (to_file_gen_fixed_flag sv s t). Qed.
+Print Assumptions failed_to_file_leaves_nothing.
+
+(* non-vacuity: a history with successes and failures of every stage *)
+Definition ex_history : list op :=
+  [ OToFile (mk_tofile (W Plain) [MGood] NFresh false true);           (* unknown extension *)
+    OSave (mk_save true [MSelf] true true);                            (* emg3d.save(f, sim=sim) *)
+    OToFile (mk_tofile (W Results) [MBad] NFresh true true);           (* a member cannot be serialised *)
+    OToDict (W Computed);
+    OToFile (mk_tofile (W Plain) [] NNonStr true true);                (* name is not a str *)
+    OToFile (mk_tofile WBad [] NFresh true true);                      (* unknown `what` *)
+    OToFile (mk_tofile (W Plain) [MGood] NFresh true false);           (* writer fails *)
+    OSave (mk_save true [MGood; MSelf; MSelf] true true);
+    OToFile (mk_tofile (W Results) [MGood] NFresh true true);
+    OToDict WBad; OToDict (W All) ].
+Example fault_history_nonvacuous :
+  render_run (run true false None ex_history)
+  = "X-;D[F]-;X-;D[F]-;X-;X-;X-;D[F,F]-;D[R]-;X-;D[F]-"%string /\
+  run true true None ex_history = run true false None ex_history.
+Proof. split; vm_compute; reflexivity. Qed.
+Print Assumptions fault_history_nonvacuous.
+
+(* THE CODE BEFORE e6d5394 ([fixed = false]; io.save as in /repo): a to_file that raises before
+   io.save reaches Simulation.to_dict (another member cannot be serialised; `name` is not a str)
+   leaves the attribute behind, and the NEXT to_dict / copy / save of that simulation silently
+   uses the stale `what`: a fully computed simulation is stored without fields and data. *)
+Theorem unfixed_to_file_stale_what_refuted :
+  exists ops,
+    map fst (run false false None ops) <> map (spec false) ops /\
+    (exists r, In r (run false false None ops) /\ snd r <> None) /\
+    (* concretely: to_file(what='plain', extra=<unserialisable>) raises; copy() is then 'plain' *)
+    run false false None ops = [(Raised, Some (W Plain)); (Done [Plain], None)].
+Proof.
+  exists [OToFile (mk_tofile (W Plain) [MBad] NFresh true true); OToDict (W Computed)].
+  split; [vm_compute; discriminate|].
+  split; [exists (Raised, Some (W Plain)); split; [left; reflexivity|discriminate]|].
+  vm_compute. reflexivity.
+Qed.
+Print Assumptions unfixed_to_file_stale_what_refuted.
+
+(* the same code with an io.save that validates the extension first (seeded change C17-6): every
+   mistyped extension leaks; with the try/finally the change is harmless (theorems above hold for
+   both values of ext_first) *)
+Theorem unfixed_ext_first_stale_what_refuted :
+  run false true None
+    [OToFile (mk_tofile (W Plain) [] NFresh false true); OSave (mk_save true [MSelf] true true)]
+  = [(Raised, Some (W Plain)); (Done [Plain], None)] /\
+  run false false None
+    [OToFile (mk_tofile (W Plain) [] NFresh false true); OSave (mk_save true [MSelf] true true)]
+  = [(Raised, None); (Done [Computed], None)].
+Proof. split; vm_compute; reflexivity. Qed.
+Print Assumptions unfixed_ext_first_stale_what_refuted.
+
+(* why it went unnoticed: without a failing member, with a proper name and the extension checked
+   after serialising, the unfixed to_file always reached Simulation.to_dict *)
+Theorem unfixed_clean_when_to_dict_reached s t :
+  tf_name t = NFresh -> existsb is_bad (tf_user t) = false ->
+  fst (to_file false false s t) = None.
+Proof. exact (to_file_unfixed_clean_when_reached s t). Qed.
+Print Assumptions unfixed_clean_when_to_dict_reached.
